@@ -729,6 +729,9 @@ class Engine(object):
     table = self.tables[table_id]
     col = table.get_column(col_id)
     checkpoint = self._get_undo_checkpoint()
+    # Formulas may also schedule (or cancel) automatic removal of records, e.g. the 'group' column
+    # of summary tables. That isn't a DocAction, so remember it to restore it below.
+    auto_removes = self.docmodel.get_auto_removes()
     # Makes calls to REQUEST synchronous, since raising a RequestingError can't work here.
     self._sync_request = True
     try:
@@ -739,6 +742,7 @@ class Engine(object):
       # processed (e.g. don't get applied to DocStorage), so it's important to reverse them.
       self._sync_request = False
       self._undo_to_checkpoint(checkpoint)
+      self.docmodel.set_auto_removes(auto_removes)
 
   def _recompute(self, node, row_ids=None):
     """
